@@ -2618,6 +2618,16 @@ impl Runner {
                 out.case(&req, "-", "SKIP:not expressible as an RSSL program");
                 return;
             }
+            Some(Err(e)) if e.contains("redefinition") && items.iter().any(|x| matches!(x, Item::Redecl(..))) => {
+                // a well-formed unit defines no function twice: prototypes and one definition of a function, in any order
+                self.hist.add("seq:declarations-refused-as-a-redefinition");
+                out.case(
+                    &req,
+                    "declarations-refused",
+                    &format!("FAIL:the unit declares a function more than once but defines none twice, and its declarations alone are refused: {}", e),
+                );
+                return;
+            }
             Some(Err(e)) => {
                 // the generator avoids declarations that clash; a replayed / shrunk request may not
                 out.case(&req, "-", &format!("SKIP:the declarations alone are not accepted: {}", e));
@@ -2745,7 +2755,11 @@ impl Runner {
                         }
                         _ => false,
                     };
-                    let redeclared = |id: &u32| items[..*k].iter().any(|x| matches!(x, Item::Redecl(i, _, _) if i == id));
+                    // (only a template whose parameter types mention a template parameter is this known defect)
+                    let redeclared = |id: &u32| {
+                        items[..*k].iter().any(|x| matches!(x, Item::Redecl(i, _, _) if i == id))
+                            && visible.iter().any(|c| c.id == *id && !c.tkinds.is_empty() && c.params.iter().any(|p| is_template_layer(p.ty.layer)))
+                    };
                     let dups: Vec<u32> = match v {
                         Verdict::Amb(ids) => ids.windows(2).filter(|w| w[0] == w[1]).map(|w| w[0]).collect(),
                         _ => Vec::new(),
@@ -3915,7 +3929,12 @@ pub fn run(args: &Args, out: &mut Out) {
             items.push(Item::Decl(sc, main(first)));
             sites(&mut items);
             place(&mut items, 1);
-            if third {
+            if third && i % 2 == 0 {
+                // the definition first, then one more prototype
+                items.push(Item::Redecl(0, nd_c, true));
+                sites(&mut items);
+                items.push(Item::Redecl(0, later, false));
+            } else if third {
                 items.push(Item::Redecl(0, later, false));
                 sites(&mut items);
                 items.push(Item::Redecl(0, nd_c, true));
